@@ -1202,4 +1202,46 @@ theorem pairwiseNonPrefix_disjoint (l : List (List Char)) (h : pairwiseNonPrefix
     · exact absurd b.symm hne
     · exact b
 
+
+/-- `strings.Join(elems, sep)` on character lists, literally: no normalisation, no escaping -/
+def stringsJoin (sep : Char) : List (List Char) → List Char
+  | [] => []
+  | [a] => a
+  | a :: b :: rest => a ++ sep :: stringsJoin sep (b :: rest)
+
+/-- `getFullKey`: strings.Join(append(prefixes, key), sep) -/
+def joinKey (sep : Char) (prefixes : List (List Char)) (key : List Char) : List Char :=
+  stringsJoin sep (prefixes ++ [key])
+
+/-- what every full key of a store starts with: each prefix segment followed by the separator -/
+def storePath (sep : Char) (prefixes : List (List Char)) : List Char :=
+  prefixes.flatMap (fun seg => seg ++ [sep])
+
+theorem joinKey_eq (sep : Char) (prefixes : List (List Char)) (key : List Char) :
+    joinKey sep prefixes key = storePath sep prefixes ++ key := by
+  induction prefixes with
+  | nil => simp [joinKey, stringsJoin, storePath]
+  | cons a rest ih =>
+    cases rest with
+    | nil => simp [joinKey, stringsJoin, storePath]
+    | cons b rest' =>
+      simp only [joinKey, storePath, List.cons_append, stringsJoin, List.flatMap_cons] at ih ⊢
+      rw [ih]
+      simp
+
+/-- two stores whose paths are not a prefix of one another never produce the same full key — for ANY keys,
+    including keys that contain the separator or `..` segments (the join does not interpret them) -/
+theorem joinKey_disjoint (sep : Char) (l : List (List (List Char))) (h : pairwiseNonPrefix (l.map (storePath sep)) = true)
+    (p q : List (List Char)) (hp : p ∈ l) (hq : q ∈ l) (hne : storePath sep p ≠ storePath sep q) (k1 k2 : List Char) :
+    joinKey sep p k1 ≠ joinKey sep q k2 := by
+  rw [joinKey_eq, joinKey_eq]
+  exact pairwiseNonPrefix_disjoint _ h _ _ (List.mem_map_of_mem hp) (List.mem_map_of_mem hq) hne k1 k2
+
+/-- `Put` is total on keys: whatever the key is (length, characters), the entry is visible right after the Put
+    (for a positive TTL, or at the expiry instant on a back-end that still shows it) -/
+theorem put_visible (incl : Bool) (st : Store) (now ttl : Nat) (k : Key) (v : String) (h : 0 < ttl) :
+    stGet incl (stPut st k ⟨v, now + ttl⟩) now k = some v := by
+  simp [stGet, stFind_put_self, alive]
+  omega
+
 end Nuts.C05
